@@ -58,7 +58,7 @@ HasRaw(p) == \E i \in 1..Len(p) :
 RECURSIVE Run(_, _, _, _)
 Run(prog, files, m, k) ==
   IF m.phase # "run" \/ k = 0 THEN m
-  ELSE LET st0 == [InitState(m.tab, [n \in DOMAIN m.segs |-> ResetSeg(m.segs[n])], m.cur0) EXCEPT !.undef = m.undef, !.vars = m.vars]
+  ELSE LET st0 == [InitState(m.tab, [n \in DOMAIN m.segs |-> ResetSeg(m.segs[n])], m.cur0) EXCEPT !.undef = m.undef, !.vars = m.vars, !.nodes = m.nodes]
            r == WalkSeq(prog, st0, <<>>, FALSE, TRUE, [md |-> MacroDefs(prog, <<>>), files |-> files, moveMacro |-> FALSE]) IN
        Run(prog, files, Decide(m, [r EXCEPT !.tab = SegSyms(r.segs) @@ @], 8192), k - 1)
 (* the model's verdict on a (possibly faulty) program: "parse-error", "failed", "ok", "undecided" *)
